@@ -63,6 +63,18 @@ theorem typeBody_semi (env : Env) (F : Nat) (rec : Core) (operatorOk : Bool) (c 
     (by decide : (";" = "__inline") = False), (by decide : (";" = "__forceinline") = False),
     Bool.false_eq_true, ↓reduceIte, decide_false, Bool.or_self, bind, interp_bind, pure, interp]
 
+/-- on `{` the type loop stops (it is none of the tokens the loop knows) -/
+theorem typeBody_brace (env : Env) (F : Nat) (rec : Core) (operatorOk : Bool) (c : CTok) (pqn : Option PQName) (cst vol : Bool)
+    (mods : Mods) (o : Bool) (w : World) (hc : c.type = "{") :
+    interp env (typeBody F rec operatorOk (c, pqn, cst, vol, mods, o)) w = (w, .ok (.inr (c, pqn, cst, vol, mods, false))) := by
+  unfold typeBody
+  simp only [hc, (by decide : Gen.pqnameStartTokens.contains "{" = false), (by decide : Gen.parseTypePtrRefParen.contains "{" = false),
+    (by decide : Gen.typeKwdBoth.contains "{" = false), (by decide : Gen.typeKwdMeth.contains "{" = false),
+    (by decide : Gen.attributeStartTokens.contains "{" = false),
+    (by decide : ("{" = "const") = False), (by decide : ("{" = "mutable") = False), (by decide : ("{" = "volatile") = False),
+    (by decide : ("{" = "__inline") = False), (by decide : ("{" = "__forceinline") = False),
+    Bool.false_eq_true, ↓reduceIte, decide_false, Bool.or_self, bind, interp_bind, pure, interp]
+
 /-- the tokens that end a type: a declarator start, or `;` -/
 def typeEnd (ty : String) : Bool := typeStop ty || ty == ";"
 
